@@ -84,6 +84,19 @@ class P:
                 c_ = G.pcase(src, aliases={"N": v, "B": "echo $(z) "})
                 al.append(c_)
                 aexp[c_] = (1, t.index("@") + 1)
+        # alias values that open a substitution which the source closes: what follows in the source is counted from its first character
+        for v, close in (("echo $(a", ")"), ("$(a", ")"), ("echo `a", "`"), ("echo $((1 +", " 2))"), ("echo \"$(a", ")\""), ("echo ${x:-$(a", ")}"),
+                         ("echo $(a $(b", "))"), ("B $(a", ")")):
+            for mid in (" b", ";b", "\nb", "\nb\n", "", " "):
+                if "((" in v and mid.strip() == ";b" or close == "`" and mid == "":
+                    continue          # (N` is one word, not the alias name)
+                for tail in (" x; @fi", " | @;", " ; @then", " @)", " x &&  @&", "; @}"):
+                    t = "N" + mid + close + tail
+                    k = t.index("@")
+                    src = t.replace("@", "") + "\n"
+                    c_ = G.pcase(src, aliases={"N": v, "B": "echo $(z) "})
+                    al.append(c_)
+                    aexp[c_] = (t[:k].count("\n") + 1, k - (t[:k].rfind("\n") + 1) + 1)
         for v in bad_values:
             for t in ("N", "N x", "  N", "a; N y", "N\n", "if N; then :; fi", "B N"):
                 if t == "B N" and v.startswith(("{", "if", "(")):
